@@ -174,6 +174,20 @@ Skip(k, e) ==      \* the harness did not issue the stimulus (guard false on the
         /\ UNCHANGED <<led, ledInv, script, last>>
         /\ (same \/ Report("DRIFT", "state changed without a step", k, e, e.post))
 
+\* A step recorded by the hooks alone (the repository's own tests run with the hooks on): the case that fired is
+\* known, its arguments and reply are not, and nothing visible identifies them. The reservations must be unchanged
+\* (for the status case that is the property StatusIsReadOnly; otherwise conformance).
+Blind(k, e) ==
+    LET same == HeldObs(e.post) = HeldOf(st) /\ IdsObs(e.post) = ids
+        ro == e.tag = "status" => same
+    IN  /\ st' = ObservedState(st, e.post, led, IF e.tag = "timer" THEN FALSE ELSE st.armed)
+        /\ ids' = IdsObs(e.post)
+        /\ UNCHANGED <<led, ledInv, script>>
+        /\ last' = [act |-> "Blind"]
+        /\ (ro \/ Report("VIOLATION", "StatusIsReadOnly", k, e,
+                          [before |-> WithIds(HeldOf(st), ids), after |-> WithIds(HeldObs(e.post), IdsObs(e.post))]))
+        /\ (same \/ ~ro \/ Report("DRIFT", "reservations changed in a step that shows no grant or release", k, e, e.post))
+
 Observe(k, e) ==
     LET pre == st
         a == ActionOf(e)
@@ -212,6 +226,7 @@ TNext ==
             /\ steps' = steps /\ hist' = hist
             /\ CASE e.ev = "reset" -> Reset(k, e)
                  [] e.ev = "Skip" -> Skip(k, e)
+                 [] e.ev = "Blind" -> Blind(k, e)
                  [] OTHER -> Observe(k, e)
 
 TSpec == TInit /\ [][TNext]_tvars
